@@ -2,11 +2,11 @@
 C04 - the best point ever evaluated is never lost (deterministic objective, no averaging).
 """
 from ..harness import run_property
-from .. import step, outer
+from .. import step, outer, runstart
 
 
 def harnesses(tier, seed):
-    return step.step_harnesses(tier, seed, 'C04') + outer.outer_harnesses(tier, seed, 'C04')
+    return step.step_harnesses(tier, seed, 'C04') + outer.outer_harnesses(tier, seed, 'C04') + runstart.start_harnesses(tier, seed, 'C04')
 
 
 def run(tier, seed):
